@@ -26,16 +26,29 @@ Proof.
   - rewrite forallb_forall in H2. apply Forall_forall. intros x Hx. specialize (H2 x Hx). lia.
 Qed.
 
+Definition fname_b (s : str) : bool :=
+  token_b s && forallb (fun k => implb (ci_eq s k) (str_eqb s k)) derived_names.
+
+Lemma fname_b_ok s : fname_b s = true -> fname s.
+Proof.
+  unfold fname_b, fname. intros H. apply andb_true_iff in H. destruct H as [H1 H2].
+  split; [now apply token_b_ok|]. intros k Hk Hci. rewrite forallb_forall in H2. specialize (H2 k Hk).
+  rewrite Hci in H2. cbn [implb] in H2. now apply str_eqb_eq.
+Qed.
+
 Lemma token_clean n : token n -> clean n.
 Proof. intros [_ H]. unfold clean. revert H. apply Forall_impl. intros a Ha. lia. Qed.
 
-Lemma tok_Host : token s_Host. Proof. apply token_b_ok. reflexivity. Qed.
-Lemma tok_Cookie : token s_Cookie. Proof. apply token_b_ok. reflexivity. Qed.
-Lemma tok_Authorization : token s_Authorization. Proof. apply token_b_ok. reflexivity. Qed.
-Lemma tok_Referer : token s_Referer. Proof. apply token_b_ok. reflexivity. Qed.
-Lemma tok_Connection : token s_Connection. Proof. apply token_b_ok. reflexivity. Qed.
-Lemma tok_Content_Type : token s_Content_Type. Proof. apply token_b_ok. reflexivity. Qed.
-Lemma tok_Content_Length : token s_Content_Length. Proof. apply token_b_ok. reflexivity. Qed.
+Lemma fname_clean n : fname n -> clean n.
+Proof. intros [H _]. now apply token_clean. Qed.
+
+Lemma tok_Host : fname s_Host. Proof. apply fname_b_ok. reflexivity. Qed.
+Lemma tok_Cookie : fname s_Cookie. Proof. apply fname_b_ok. reflexivity. Qed.
+Lemma tok_Authorization : fname s_Authorization. Proof. apply fname_b_ok. reflexivity. Qed.
+Lemma tok_Referer : fname s_Referer. Proof. apply fname_b_ok. reflexivity. Qed.
+Lemma tok_Connection : fname s_Connection. Proof. apply fname_b_ok. reflexivity. Qed.
+Lemma tok_Content_Type : fname s_Content_Type. Proof. apply fname_b_ok. reflexivity. Qed.
+Lemma tok_Content_Length : fname s_Content_Length. Proof. apply fname_b_ok. reflexivity. Qed.
 
 Lemma lacks_get_list n f : lacks n f -> nv_get_list n f = [].
 Proof.
@@ -61,15 +74,15 @@ Proof.
     [reflexivity | discriminate | reflexivity].
 Qed.
 
-Lemma tok_set n v f : fields_tok f -> token n -> no_crlf v -> fields_tok (nv_set n v f).
+Lemma tok_set n v f : fields_tok f -> fname n -> no_crlf v -> fields_tok (nv_set n v f).
 Proof.
   intros Htok Hn Hv m w H. apply in_get_all_set in H.
   destruct H as [[-> ->]|H]; [now split | now apply (Htok m w)].
 Qed.
 
-(* the eight parts of [req_ok], in order: wf, fields_tok, cred_src, url_clean, Host values,
+(* the nine parts of [req_ok], in order: wf, fields_tok, cred_src, ref_ok, url_clean, Host values,
    Host count, Authorization values, Cookie values *)
-Ltac split_req := split; [split; [|split]| split; [|split; [|split; [|split]]]].
+Ltac split_req := split; [split; [|split; [|split]]| split; [|split; [|split; [|split]]]].
 
 (* ------------------------------------------------------------------ *)
 (* (G) the request invariant                                            *)
@@ -78,6 +91,7 @@ Section Inv.
   Variable c : cfg.
   Variable jar : nat -> urlc -> jans.
   Variable login : option (str * str).
+  Variable parent : option urlc.
   Hypothesis Hbase : base_ok (c_base c).
   Hypothesis Hjar : jar_ok jar.
 
@@ -87,8 +101,14 @@ Section Inv.
 
   (* what is kept as _original_request: only its shape matters, because the three
      URL-dependent fields are re-derived when it is replayed *)
+  (* where a Referer value comes from: the request factory (--referer / --header), or
+     _add_referrer for the parent URL of this fetch *)
+  Definition ref_ok (f : nvr) : Prop :=
+    forall v, In v (nv_get_list s_Referer f) ->
+              In v (nv_get_list s_Referer (c_base c)) \/ exists p, parent = Some p /\ v = referrer_of p.
+
   Definition orig_ok (q : req) : Prop :=
-    wf (q_fields q) /\ fields_tok (q_fields q) /\ cred_src q.
+    wf (q_fields q) /\ fields_tok (q_fields q) /\ cred_src q /\ ref_ok (q_fields q).
 
   (* a request that is (about to be) sent for its URL *)
   Definition req_ok (q : req) : Prop :=
@@ -103,16 +123,19 @@ Section Inv.
 
   (* setting a field that is none of Host / Authorization / Cookie *)
   Lemma req_ok_set_other q n v :
-    req_ok q -> token n -> no_crlf v ->
+    req_ok q -> fname n -> no_crlf v ->
     str_eqb n s_Host = false -> str_eqb n s_Authorization = false -> str_eqb n s_Cookie = false ->
+    (str_eqb n s_Referer = false \/ exists p, parent = Some p /\ v = referrer_of p) ->
     req_ok (with_fields q (nv_set n v (q_fields q))).
   Proof.
-    intros ((Hwf & Htok & Hcs) & Hu & Hh & Hl & Ha & Hc) Hn Hv E1 E2 E3.
-    unfold req_ok, orig_ok, cred_src. cbn [with_fields q_fields q_url q_user q_pass].
+    intros ((Hwf & Htok & Hcs & Hrf) & Hu & Hh & Hl & Ha & Hc) Hn Hv E1 E2 E3 E4.
+    unfold req_ok, orig_ok, cred_src, ref_ok. cbn [with_fields q_fields q_url q_user q_pass].
     rewrite !get_list_set, E1, E2, E3.
     split_req; try assumption.
     - now apply wf_set.
     - now apply tok_set.
+    - destruct E4 as [E4|E4]; [rewrite E4; exact Hrf|].
+      destruct (str_eqb n s_Referer); [|exact Hrf]. intros w [<-|[]]. now right.
   Qed.
 
   (* _add_basic_auth_header *)
@@ -121,11 +144,12 @@ Section Inv.
     intros H. unfold add_basic_auth.
     destruct (nonempty (pick (u_user (q_url q)) (q_user q)) && nonempty (pick (u_pass (q_url q)) (q_pass q)));
       [|assumption].
-    destruct H as ((Hwf & Htok & Hcs) & Hu & Hh & Hl & Ha & Hc).
-    unfold req_ok, orig_ok, cred_src. cbn [with_fields q_fields q_url q_user q_pass].
+    destruct H as ((Hwf & Htok & Hcs & Hrf) & Hu & Hh & Hl & Ha & Hc).
+    unfold req_ok, orig_ok, cred_src, ref_ok. cbn [with_fields q_fields q_url q_user q_pass].
     rewrite !get_list_set, str_eqb_refl.
     replace (str_eqb s_Authorization s_Host) with false by reflexivity.
     replace (str_eqb s_Authorization s_Cookie) with false by reflexivity.
+    replace (str_eqb s_Authorization s_Referer) with false by reflexivity.
     split_req; try assumption.
     - now apply wf_set.
     - apply tok_set; [assumption | apply tok_Authorization | apply basic_value_no_crlf].
@@ -147,11 +171,12 @@ Section Inv.
       destruct l as [|w l]; [|cbn [length] in Hl; lia].
       now rewrite (Hh v (or_introl eq_refl)).
     - pose proof (contains_false_get_list _ _ E) as E0.
-      destruct H as ((Hwf & Htok & Hcs) & Hu & Hh & Hl & Ha & Hc).
-      unfold req_ok, orig_ok, cred_src. cbn [with_fields q_fields q_url q_user q_pass].
+      destruct H as ((Hwf & Htok & Hcs & Hrf) & Hu & Hh & Hl & Ha & Hc).
+      unfold req_ok, orig_ok, cred_src, ref_ok. cbn [with_fields q_fields q_url q_user q_pass].
       rewrite !get_list_set, str_eqb_refl.
       replace (str_eqb s_Host s_Authorization) with false by reflexivity.
       replace (str_eqb s_Host s_Cookie) with false by reflexivity.
+      replace (str_eqb s_Host s_Referer) with false by reflexivity.
       split; [split_req; try assumption | split; reflexivity].
       + now apply wf_set.
       + apply tok_set; [assumption | apply tok_Host | apply clean_no_crlf, clean_hwp; assumption].
@@ -173,6 +198,7 @@ Section Inv.
     - apply req_ok_set_other; try assumption; try reflexivity.
       + apply tok_Connection.
       + apply no_crlf_b_ok. reflexivity.
+      + left. reflexivity.
     - cbn [with_fields q_fields]. rewrite get_list_set.
       replace (str_eqb s_Connection s_Host) with false by reflexivity. assumption.
     - cbn [with_fields q_url]. assumption.
@@ -184,17 +210,18 @@ Section Inv.
     (forall v, ans = Some v -> jar t (q_url q) = JSome v) ->
     req_ok (with_fields q (cookie_glue ans (q_fields q))).
   Proof.
-    intros ((Hwf & Htok & Hcs) & Hu & Hh & Hl & Ha & Hc) Hans.
+    intros ((Hwf & Htok & Hcs & Hrf) & Hu & Hh & Hl & Ha & Hc) Hans.
     assert (Hin : forall k v, In v (nv_get_list k (cookie_glue ans (q_fields q))) ->
                               In v (nv_get_list k (q_fields q)) \/ (k = s_Cookie /\ ans = Some v)).
     { intros k v Hv. apply get_list_in in Hv. apply in_glue in Hv. destruct Hv as [Hv|[-> Hv]].
       - left. now apply wf_in_get_list.
       - right. now split. }
-    unfold req_ok, orig_ok, cred_src. cbn [with_fields q_fields q_url q_user q_pass].
+    unfold req_ok, orig_ok, cred_src, ref_ok. cbn [with_fields q_fields q_url q_user q_pass].
     split_req; try assumption.
     - apply wf_glue.
     - intros n v H. apply in_glue in H. destruct H as [H|[-> H]]; [now apply (Htok n v)|].
       split; [apply tok_Cookie|]. apply (Hjar t (q_url q) v). now apply Hans.
+    - intros v Hv. apply Hin in Hv. destruct Hv as [Hv|[Hv _]]; [now apply Hrf | discriminate Hv].
     - intros v Hv. apply Hin in Hv. destruct Hv as [Hv|[Hv _]]; [now apply Hh | discriminate Hv].
     - apply glue_single.
     - intros v Hv. apply Hin in Hv. destruct Hv as [Hv|[Hv _]]; [now apply Ha | discriminate Hv].
@@ -214,10 +241,11 @@ Section Inv.
   Lemma req_ok_fresh u : url_clean u -> req_ok (fresh (c_base c) u).
   Proof.
     intros Hu. destruct Hbase as (Hwf & Htok & HH & HC & HA).
-    unfold req_ok, orig_ok, cred_src, fresh. cbn [q_fields q_url q_user q_pass].
+    unfold req_ok, orig_ok, cred_src, ref_ok, fresh. cbn [q_fields q_url q_user q_pass].
     rewrite (lacks_get_list _ _ HH), (lacks_get_list _ _ HC), (lacks_get_list _ _ HA).
     split_req; try assumption; try (intros v Hv; exact (match Hv with end)).
     - right. now split.
+    - intros v Hv. now left.
     - cbn [length]. lia.
   Qed.
 
@@ -227,7 +255,7 @@ Section Inv.
 
   Lemma req_ok_repeat o u : orig_ok o -> url_clean u -> req_ok (repeat_request c o u) /\ q_url (repeat_request c o u) = u.
   Proof.
-    intros (Hwf & Htok & Hcs) Hu. destruct Hbase as (_ & _ & HH & HC & HA).
+    intros (Hwf & Htok & Hcs & Hrf) Hu. destruct Hbase as (_ & _ & HH & HC & HA).
     unfold repeat_request. cbv zeta. cbn [with_url with_fields q_fields q_url q_user q_pass].
     split; [|reflexivity].
     rewrite (reset_field_pop _ _ HH), (reset_field_pop _ _ HC), (reset_field_pop _ _ HA).
@@ -249,29 +277,32 @@ Section Inv.
     { unfold f3. rewrite get_list_pop. replace (str_eqb s_Authorization s_Host) with false by reflexivity.
       unfold f2. rewrite get_list_pop. replace (str_eqb s_Cookie s_Host) with false by reflexivity.
       apply get_list_pop_same. }
-    unfold req_ok, orig_ok, cred_src. cbn [with_url with_fields q_fields q_url q_user q_pass].
+    unfold req_ok, orig_ok, cred_src, ref_ok. cbn [with_url with_fields q_fields q_url q_user q_pass].
     rewrite EA, EC, EH.
     split_req; try assumption; try (intros v Hv; exact (match Hv with end)).
     - intros n v H. apply Hsub in H. now apply (Htok n v).
+    - intros v Hv. apply Hrf. apply wf_in_get_list; [assumption|]. apply Hsub. now apply get_list_in.
     - cbn [length]. lia.
   Qed.
 
   (* processor/web.py: the first request *)
-  Lemma req_ok_initial u parent post :
+  Lemma req_ok_initial u post :
     url_clean u -> parent_ok parent ->
     req_ok (initial_request (c_base c) u parent login post)
     /\ q_url (initial_request (c_base c) u parent login post) = u.
   Proof.
     intros Hu Hp. pose proof (req_ok_fresh u Hu) as H0.
-    assert (H1 : forall p, url_clean p -> req_ok (add_referrer p (fresh (c_base c) u))
-                                         /\ q_url (add_referrer p (fresh (c_base c) u)) = u).
-    { intros p Hpc. unfold add_referrer.
+    assert (H1 : forall p, parent = Some p -> url_clean p ->
+                           req_ok (add_referrer p (fresh (c_base c) u))
+                           /\ q_url (add_referrer p (fresh (c_base c) u)) = u).
+    { intros p Ep Hpc. unfold add_referrer.
       destruct (str_eqb (u_scheme p) s_https && str_eqb (u_scheme (q_url (fresh (c_base c) u))) s_http);
         [now split|].
       split; [|reflexivity].
       apply req_ok_set_other; try assumption; try reflexivity.
       - apply tok_Referer.
-      - apply clean_no_crlf, clean_referrer_of. assumption. }
+      - apply clean_no_crlf, clean_referrer_of. assumption.
+      - right. exists p. split; [assumption | reflexivity]. }
     assert (H2 : req_ok (populate_common parent login (fresh (c_base c) u))
                  /\ q_url (populate_common parent login (fresh (c_base c) u)) = u).
     { unfold populate_common.
@@ -283,14 +314,14 @@ Section Inv.
                  | None => fresh (c_base c) u
                  end).
       assert (Hq1 : req_ok q1 /\ q_url q1 = u).
-      { unfold q1. destruct parent as [p|]; [|now split].
+      { unfold q1. unfold parent_ok in Hp. destruct parent as [p|] eqn:Ep; [|now split].
         destruct (nv_get s_Referer (q_fields (fresh (c_base c) u))) as [[|x l]|];
           [now apply H1 | now split | now apply H1]. }
       destruct Hq1 as [Hq1 Hq1u].
       destruct login as [[lu lp]|] eqn:El; [|now split].
       split; [|exact Hq1u].
-      destruct Hq1 as ((Hwf & Htok & Hcs) & Hu' & Hh & Hl & Ha & Hc).
-      unfold req_ok, orig_ok, cred_src. cbn [q_fields q_url q_user q_pass].
+      destruct Hq1 as ((Hwf & Htok & Hcs & Hrf) & Hu' & Hh & Hl & Ha & Hc).
+      unfold req_ok, orig_ok, cred_src, ref_ok. cbn [q_fields q_url q_user q_pass].
       split_req; try assumption. left. exact El. }
     destruct H2 as [H2 H2u].
     unfold initial_request. cbv zeta. destruct post as [len|]; [|now split].
@@ -298,12 +329,12 @@ Section Inv.
     set (q := populate_common parent login (fresh (c_base c) u)) in *.
     pose proof (req_ok_set_other q s_Content_Type s_form H2 tok_Content_Type) as H3.
     assert (Hform : no_crlf s_form) by (apply no_crlf_b_ok; reflexivity).
-    specialize (H3 Hform eq_refl eq_refl eq_refl).
+    specialize (H3 Hform eq_refl eq_refl eq_refl (or_introl eq_refl)).
     pose proof (req_ok_set_other _ s_Content_Length (dec len) H3 tok_Content_Length
-                  (clean_no_crlf _ (clean_dec len)) eq_refl eq_refl eq_refl) as H4.
+                  (clean_no_crlf _ (clean_dec len)) eq_refl eq_refl eq_refl (or_introl eq_refl)) as H4.
     cbn [with_fields q_fields q_url q_user q_pass] in H4.
-    destruct H4 as ((Hwf & Htok & Hcs) & Hu' & Hh & Hl & Ha & Hc).
-    unfold req_ok, orig_ok, cred_src. cbn [q_fields q_url q_user q_pass].
+    destruct H4 as ((Hwf & Htok & Hcs & Hrf) & Hu' & Hh & Hl & Ha & Hc).
+    unfold req_ok, orig_ok, cred_src, ref_ok. cbn [q_fields q_url q_user q_pass].
     split_req; assumption.
   Qed.
 
@@ -502,8 +533,9 @@ Section Inv.
     destruct (hop_q2_ok s q (proj2 Hs q Hc)) as (H2 & H2h & H2u).
     intros E. apply hop_rest_ok in E; try assumption.
     destruct E as [-> Ha]. rewrite H2u in Ha.
-    unfold sent_ok. cbn [sn_url sn_full sn_req sn_bytes].
-    repeat split; try assumption. now rewrite H2u.
+    unfold sent_ok. cbn [sn_url sn_full sn_req sn_bytes]. rewrite H2u.
+    split; [split; [reflexivity | split; [reflexivity | split; [exact H2 | exact H2h]]]|].
+    split; [reflexivity|]. split; [reflexivity | exact Ha].
   Qed.
 
   (* ------------------------------------------------------------------ *)
@@ -523,22 +555,23 @@ Section Inv.
       destruct (hop_ok s q r sn o Hs Hc Hr Eh) as (Hsn & Hsnu & Hsnf & Ha).
       destruct o as [s'|e].
       + destruct Ha as [Hs' Hu'].
+        replace (fst (let (l, e) := run c jar s' rs in (sn :: l, e))) with (sn :: fst (run c jar s' rs))
+          by (destruct (run c jar s' rs); reflexivity).
         destruct (cur s') as [q'|] eqn:Ec'.
         * specialize (IH s' q' Hs' Ec' Hrs). destruct IH as (IH1 & IH2 & IH3).
-          destruct (run c jar s' rs) as [l e] eqn:Er. cbn [fst] in *.
           split; [now constructor|].
           cbn [map length hop_urls hop_full firstn]. fold (hop_full rs).
           rewrite IH2, IH3, Hsnu, Hsnf. rewrite (Hu' q' eq_refl). unfold next_url. now split.
         * assert (Er : fst (run c jar s' rs) = []).
           { destruct rs as [|r' rs']; cbn [run]; rewrite Ec'; reflexivity. }
-          destruct (run c jar s' rs) as [l e]. cbn [fst] in *. subst l.
-          split; [now repeat constructor|].
+          rewrite Er.
+          split; [constructor; [exact Hsn | constructor]|].
           cbn [map length hop_urls hop_full firstn]. now rewrite Hsnu, Hsnf.
-      + cbn [fst]. split; [now repeat constructor|].
+      + cbn [fst]. split; [constructor; [exact Hsn | constructor]|].
         cbn [map length hop_urls hop_full firstn]. now rewrite Hsnu, Hsnf.
   Qed.
 
-  Lemma fetch_ok u parent post rs :
+  Lemma fetch_ok u post rs :
     url_clean u -> parent_ok parent -> chain_urls url_clean rs ->
     let sents := fst (fetch c jar u parent login post rs) in
     Forall sent_ok sents
@@ -546,7 +579,7 @@ Section Inv.
     /\ map sn_full sents = firstn (length sents) (hop_full rs).
   Proof.
     intros Hu Hp Hrs. cbv zeta. unfold fetch.
-    destruct (req_ok_initial u parent post Hu Hp) as [Hq Hqu].
+    destruct (req_ok_initial u post Hu Hp) as [Hq Hqu].
     set (q0 := initial_request (c_base c) u parent login post) in *.
     assert (Hl : Forall loc_ok rs).
     { unfold chain_urls in Hrs. revert Hrs. apply Forall_impl. intros r Hr. exact Hr. }
@@ -554,8 +587,82 @@ Section Inv.
     - destruct (add_cookies jar 0 q0) as [q'|] eqn:Ea; [|cbn [fst]; repeat split; constructor].
       destruct (req_ok_add_cookies _ _ _ Hq Ea) as [Hq' Hq'u].
       rewrite <- Hqu, <- Hq'u. apply run_ok; [|reflexivity|assumption].
-      split; [now apply req_ok_orig|]. cbn [cur ss_next ss_orig]. intros q1 E; inversion E; subst. assumption.
+      split; [now apply req_ok_orig|]. cbn [cur ss_next ss_orig]. intros q1 E; injection E as <-. assumption.
     - rewrite <- Hqu. apply run_ok; [|reflexivity|assumption].
-      split; [now apply req_ok_orig|]. cbn [cur ss_next ss_orig]. intros q1 E; inversion E; subst. assumption.
+      split; [now apply req_ok_orig|]. cbn [cur ss_next ss_orig]. intros q1 E; injection E as <-. assumption.
+  Qed.
+
+  (* ------------------------------------------------------------------ *)
+  (* (J) from the invariant to the bytes                                  *)
+  (* ------------------------------------------------------------------ *)
+  Lemma fl_values_get_list f n : wf f -> fl_values n (nv_get_all f) = nv_get_list n f.
+  Proof. intros H. unfold fl_values. now apply wf_filter_get_list. Qed.
+
+  Lemma sent_wire sn :
+    sent_ok sn ->
+    exists b m fl,
+      sn_bytes sn = Some b
+      /\ request_head b m (target_of (sn_full sn) (sn_url sn)) fl
+      /\ fl_values s_Host fl = [hostname_with_port (sn_url sn)]
+      /\ (forall v, In v (fl_values s_Authorization fl) -> own_credentials login (sn_url sn) v)
+      /\ (forall v, In v (fl_values s_Cookie fl) -> exists t, jar t (sn_url sn) = JSome v)
+      /\ (forall v, In v (fl_values s_Referer fl) ->
+                    In v (nv_get_list s_Referer (c_base c)) \/ exists p, parent = Some p /\ v = referrer_of p).
+  Proof.
+    intros (Hu & Hb & ((Hwf & Htok & Hcs & Hrf) & Hc & Hh & Hl & Ha & Hk) & Hhost).
+    rewrite Hu in *. rewrite Hb.
+    rewrite (to_bytes_shape (sn_full sn) (sn_req sn) Hc).
+    eexists. exists (method_of (sn_req sn)), (nv_get_all (q_fields (sn_req sn))).
+    split; [reflexivity|].
+    rewrite !fl_values_get_list by assumption.
+    split; [|split; [exact Hhost | split; [assumption | split; assumption]]].
+    unfold request_head. split; [|split; [|split]].
+    - rewrite map_map. reflexivity.
+    - unfold method_of. destruct (q_post (sn_req sn)); [now right | now left].
+    - now apply clean_target.
+    - apply Forall_forall. intros [n v] Hin. destruct (Htok n v Hin) as [Hn Hv]. cbn [fst snd].
+      split; [assumption|]. split; [assumption|].
+      apply wire_line_no_crlf; cbn [fst snd]; [|assumption].
+      apply clean_no_crlf, fname_clean. assumption.
   Qed.
 End Inv.
+
+Lemma nth_error_firstn {A} (l : list A) : forall n i x, nth_error (firstn n l) i = Some x -> nth_error l i = Some x.
+Proof.
+  induction l as [|a l IH]; intros n i x H.
+  - rewrite firstn_nil in H. destruct i; discriminate.
+  - destruct n as [|n]; [destruct i; discriminate|].
+    destruct i as [|i]; [exact H|]. cbn [firstn nth_error] in *. now apply (IH n).
+Qed.
+
+(* THE statement: request number i of any fetch, as bytes *)
+Theorem fetch_wire c jar login u parent post rs :
+  base_ok (c_base c) -> jar_ok jar -> url_clean u -> parent_ok parent -> chain_urls url_clean rs ->
+  forall i sn, nth_error (fst (fetch c jar u parent login post rs)) i = Some sn ->
+  exists ui full b m fl,
+    nth_error (hop_urls u rs) i = Some ui
+    /\ nth_error (hop_full rs) i = Some full
+    /\ sn_bytes sn = Some b
+    /\ request_head b m (target_of full ui) fl
+    /\ fl_values s_Host fl = [hostname_with_port ui]
+    /\ (forall v, In v (fl_values s_Authorization fl) -> own_credentials login ui v)
+    /\ (forall v, In v (fl_values s_Cookie fl) -> exists t, jar t ui = JSome v)
+    /\ (forall v, In v (fl_values s_Referer fl) ->
+                  In v (nv_get_list s_Referer (c_base c)) \/ exists p, parent = Some p /\ v = referrer_of p).
+Proof.
+  intros Hbase Hjar Hu Hp Hrs i sn Hi.
+  destruct (fetch_ok c jar login parent Hbase Hjar u post rs Hu Hp Hrs) as (Hall & Hurls & Hfull).
+  set (sents := fst (fetch c jar u parent login post rs)) in *.
+  assert (Hsn : sent_ok c jar login parent sn).
+  { rewrite Forall_forall in Hall. apply Hall. now apply nth_error_In with i. }
+  destruct (sent_wire c jar login parent sn Hsn) as (b & m & fl & H1 & H2 & H3 & H4 & H5 & H6).
+  exists (sn_url sn), (sn_full sn), b, m, fl.
+  split; [|split]; [| |split; [exact H1 | split; [exact H2 | split; [exact H3 | split; [exact H4 | split; [exact H5 | exact H6]]]]]].
+  - apply (nth_error_firstn _ (length sents)). rewrite <- Hurls. now apply map_nth_error.
+  - apply (nth_error_firstn _ (length sents)). rewrite <- Hfull. now apply map_nth_error.
+Qed.
+
+(* the Referer text is made of scheme, host, port, path and query only *)
+Lemma referrer_no_userinfo p a b a' b' : referrer_of (with_userinfo p a b a' b') = referrer_of p.
+Proof. reflexivity. Qed.
+
